@@ -167,110 +167,115 @@ def mintCheck (w : World) (m : Minter) (funds : List Coin) : Except Err Unit :=
       else if !feeSendable w price then .error .other
       else .ok ()
 
-def needMinter (w : World) : Except Err Minter :=
-  match w.m with
-  | some m => .ok m
-  | none => .error .notFound
-
 /-- `nonpayable` + admin check shared by all the admin messages -/
-def adminGuard (m : Minter) (sender : Addr) (paid : Bool) : Except Err Unit :=
-  if paid then .error .payment
-  else if sender ≠ m.admin then .error .unauthorized
-  else .ok ()
+def adminOk (m : Minter) (sender : Addr) (paid : Bool) : Bool := !paid && sender == m.admin
 
 def setMinter (w : World) (m : Minter) : World := { w with m := some m }
 
+/-- the minter record written by `instantiate` -/
+def freshMinter (w : World) (creator : Addr) (price : Coin) (start : Nat) (stop : Option Nat) (hasCap : Bool)
+    (wl : Option Nat) : Minter :=
+  { admin := creator, price := price, discount := none,
+    lastDiscount := if w.v.oe then 0 else w.now - H12,
+    start := start, stop := if w.v.oe then stop else none,
+    hasCap := if w.v.oe then hasCap else true, wl := wl }
+
+/-- the optional whitelist named at creation must exist and must not be active -/
+def createWlOk (w : World) (wl : Option Nat) : Bool :=
+  match wl with
+  | none => true
+  | some k =>
+    match w.wls[k]? with
+    | none => false
+    | some x => !x.active w.now
+
+/-- everything `execute_create_minter` (factory) and `instantiate` (minter) check that concerns prices, times and
+the whitelist (the error kind is not observable, so the checks are one conjunction) -/
+def createOk (w : World) (price : Coin) (start : Nat) (stop : Option Nat) (hasCap : Bool) (wl : Option Nat) : Bool :=
+  w.m.isNone &&                                                   -- the model follows one minter per case
+  -- factory: denom, floor
+  decide (w.fac.minPrice.denom = price.denom) && decide (w.fac.minPrice.amount ≤ price.amount) &&
+  (if w.v.oe then
+     -- open-edition factory: without a token cap the price and the airdrop price must be non-zero and an end time given
+     (hasCap || (decide (price.amount ≠ 0) && decide (w.fac.airdrop.amount ≠ 0) && stop.isSome)) &&
+     decide (w.now < start) &&
+     (match stop with | some e => decide (start < e) | none => true)
+   else
+     -- vending instantiate; `env.block.time.minus_seconds(12h)` panics on underflow
+     decide (GENESIS ≤ start) && decide (w.now ≤ start) && decide (H12 ≤ w.now)) &&
+  createWlOk w wl
+
 def createMinter (w : World) (creator : Addr) (price : Coin) (start : Nat) (stop : Option Nat) (hasCap : Bool)
     (wl : Option Nat) : Except Err World :=
-  if w.m.isSome then .error .other                       -- the model follows one minter per case
-  -- factory: denom, floor
-  else if w.fac.minPrice.denom ≠ price.denom then .error .invalid
-  else if w.fac.minPrice.amount > price.amount then .error .invalid
-  -- open-edition factory extras
-  else if w.v.oe && !hasCap && price.amount = 0 then .error .invalid
-  else if w.v.oe && !hasCap && w.fac.airdrop.amount = 0 then .error .invalid
-  else if w.v.oe && !hasCap && stop.isNone then .error .invalid
-  else if w.v.oe && decide (start ≤ w.now) then .error .tooLate
-  else if w.v.oe && (match stop with | some e => decide (e ≤ start) | none => false) then .error .invalid
-  -- vending instantiate
-  else if !w.v.oe && decide (start < GENESIS) then .error .tooSoon
-  else if !w.v.oe && decide (w.now > start) then .error .tooLate
-  -- `env.block.time.minus_seconds(12h)` panics on underflow
-  else if !w.v.oe && decide (w.now < H12) then .error .other
-  else
-    match wl with
-    | some k =>
-      match w.wls[k]? with
-      | none => .error .notFound
-      | some x =>
-        if x.active w.now then .error .tooLate
-        else .ok (setMinter w { admin := creator, price := price, discount := none,
-                                 lastDiscount := if w.v.oe then 0 else w.now - H12,
-                                 start := start, stop := if w.v.oe then stop else none,
-                                 hasCap := if w.v.oe then hasCap else true, wl := some k })
-    | none =>
-      .ok (setMinter w { admin := creator, price := price, discount := none,
-                          lastDiscount := if w.v.oe then 0 else w.now - H12,
-                          start := start, stop := if w.v.oe then stop else none,
-                          hasCap := if w.v.oe then hasCap else true, wl := none })
+  if createOk w price start stop hasCap wl then .ok (setMinter w (freshMinter w creator price start stop hasCap wl))
+  else .error .invalid
 
-def updateMintPrice (w : World) (sender : Addr) (paid : Bool) (p : Nat) : Except Err World := do
-  let m ← needMinter w
-  adminGuard m sender paid
-  if w.v.oe && (match m.stop with | some e => decide (e ≤ w.now) | none => false) then .error .tooLate
-  -- after the start only lowering is allowed
-  else if decide (m.start ≤ w.now) && decide (m.price.amount ≤ p) then .error .invalid
-  else if w.fac.minPrice.amount > p then .error .invalid
-  else if w.v.oe && !m.hasCap && p = 0 then .error .invalid
-  else
-    -- fix 100f319: a standing discount above the new price is dropped
-    let disc := match m.discount with
-      | some d => if d.amount > p then none else some d
-      | none => none
-    .ok (setMinter w { m with price := ⟨m.price.denom, p⟩, discount := disc })
+/-- fix 100f319: a standing discount above the new price is dropped -/
+def keepDiscount (d : Option Coin) (p : Nat) : Option Coin :=
+  match d with
+  | some c => if c.amount > p then none else some c
+  | none => none
 
-def updateDiscount (w : World) (sender : Addr) (paid : Bool) (p : Nat) : Except Err World := do
-  if w.v.oe then .error .invalid                         -- open edition has no such message
-  else
-    let m ← needMinter w
-    adminGuard m sender paid
-    if w.now < m.start then .error .tooSoon
+def updateMintPrice (w : World) (sender : Addr) (paid : Bool) (p : Nat) : Except Err World :=
+  match w.m with
+  | none => .error .notFound
+  | some m =>
+    if !adminOk m sender paid then .error .unauthorized
+    else if w.v.oe && (match m.stop with | some e => decide (e ≤ w.now) | none => false) then .error .tooLate
+    -- after the start only lowering is allowed
+    else if decide (m.start ≤ w.now) && decide (m.price.amount ≤ p) then .error .invalid
+    else if w.fac.minPrice.amount > p then .error .invalid
+    else if w.v.oe && !m.hasCap && decide (p = 0) then .error .invalid
+    else .ok (setMinter w { m with price := ⟨m.price.denom, p⟩, discount := keepDiscount m.discount p })
+
+def updateDiscount (w : World) (sender : Addr) (paid : Bool) (p : Nat) : Except Err World :=
+  match w.m with
+  | none => .error .notFound
+  | some m =>
+    if w.v.oe then .error .invalid                         -- open edition has no such message
+    else if !adminOk m sender paid then .error .unauthorized
+    else if w.now < m.start then .error .tooSoon
     else if m.lastDiscount + H12 > w.now then .error .tooSoon
     else if p > m.price.amount then .error .invalid
     else if w.fac.minPrice.amount > p then .error .invalid
     else .ok (setMinter w { m with discount := some ⟨m.price.denom, p⟩, lastDiscount := w.now })
 
-def removeDiscount (w : World) (sender : Addr) (paid : Bool) : Except Err World := do
-  if w.v.oe then .error .invalid
-  else
-    let m ← needMinter w
-    adminGuard m sender paid
-    if m.lastDiscount + HOUR > w.now then .error .tooSoon
+def removeDiscount (w : World) (sender : Addr) (paid : Bool) : Except Err World :=
+  match w.m with
+  | none => .error .notFound
+  | some m =>
+    if w.v.oe then .error .invalid
+    else if !adminOk m sender paid then .error .unauthorized
+    else if m.lastDiscount + HOUR > w.now then .error .tooSoon
     else .ok (setMinter w { m with discount := none, lastDiscount := w.now })
 
-def setWhitelist (w : World) (sender : Addr) (paid : Bool) (k : Nat) : Except Err World := do
-  let m ← needMinter w
-  adminGuard m sender paid
-  if m.start ≤ w.now then .error .tooLate
-  else if wlActive w m then .error .tooLate
-  else
-    match w.wls[k]? with
-    | none => .error .notFound
-    | some x =>
-      if x.active w.now then .error .tooLate
-      else if w.v.checkCfgDenom && decide (x.price.denom ≠ m.price.denom) then .error .invalid
-      else if w.fac.minPrice.amount > x.price.amount then .error .invalid
-      else if w.fac.minPrice.denom ≠ x.price.denom then .error .invalid
-      else .ok (setMinter w { m with wl := some k })
+def setWhitelist (w : World) (sender : Addr) (paid : Bool) (k : Nat) : Except Err World :=
+  match w.m with
+  | none => .error .notFound
+  | some m =>
+    if !adminOk m sender paid then .error .unauthorized
+    else if m.start ≤ w.now then .error .tooLate
+    else if wlActive w m then .error .tooLate
+    else
+      match w.wls[k]? with
+      | none => .error .notFound
+      | some x =>
+        if x.active w.now then .error .tooLate
+        else if w.v.checkCfgDenom && decide (x.price.denom ≠ m.price.denom) then .error .invalid
+        else if w.fac.minPrice.amount > x.price.amount then .error .invalid
+        else if w.fac.minPrice.denom ≠ x.price.denom then .error .invalid
+        else .ok (setMinter w { m with wl := some k })
 
-def updateStart (w : World) (sender : Addr) (paid : Bool) (t : Nat) : Except Err World := do
-  let m ← needMinter w
-  adminGuard m sender paid
-  if m.start ≤ w.now then .error .tooLate
-  else if w.now > t then .error .invalid
-  else if w.v.oe && (match m.stop with | some e => decide (t > e) | none => false) then .error .invalid
-  else if !w.v.oe && decide (t < GENESIS) then .error .invalid
-  else .ok (setMinter w { m with start := t })
+def updateStart (w : World) (sender : Addr) (paid : Bool) (t : Nat) : Except Err World :=
+  match w.m with
+  | none => .error .notFound
+  | some m =>
+    if !adminOk m sender paid then .error .unauthorized
+    else if m.start ≤ w.now then .error .tooLate
+    else if w.now > t then .error .invalid
+    else if w.v.oe && (match m.stop with | some e => decide (t > e) | none => false) then .error .invalid
+    else if !w.v.oe && decide (t < GENESIS) then .error .invalid
+    else .ok (setMinter w { m with start := t })
 
 def newWl (w : World) (price : Coin) (start stop : Nat) : Except Err World :=
   if start > stop then .error .invalid
@@ -288,10 +293,13 @@ def sudoAirdrop (w : World) (c : Coin) : Except Err World :=
   if !w.v.oe && decide (c.denom ≠ NATIVE) then .error .invalid
   else .ok { w with fac := { w.fac with airdrop := c } }
 
-def mintOp (w : World) (funds : List Coin) : Except Err World := do
-  let m ← needMinter w
-  mintCheck w m funds
-  pure w
+def mintOp (w : World) (funds : List Coin) : Except Err World :=
+  match w.m with
+  | none => .error .notFound
+  | some m =>
+    match mintCheck w m funds with
+    | .ok _ => .ok w
+    | .error e => .error e
 
 def step (w : World) : Op → Except Err World
   | .setTime t => .ok { w with now := t }
